@@ -510,18 +510,20 @@ def tok(x):
     return {"s": x}
 
 
-def val_match(e, g):
-    t = tok(e)
+def val_match(e, g, tokf=None):
+    t = (tokf or tok)(e)
     if t == "STR":
         return isinstance(g, dict) and ("s" in g or "x" in g)
+    if isinstance(t, tuple) and t[0] == "prefix":
+        return isinstance(g, dict) and isinstance(g.get("s"), str) and g["s"].startswith(t[1])
     return t == g
 
 
-def ev_match(exp, got):
-    return len(exp) == len(got) and all(val_match(e, g) for e, g in zip(exp, got))
+def ev_match(exp, got, tokf=None):
+    return len(exp) == len(got) and all(val_match(e, g, tokf) for e, g in zip(exp, got))
 
 
-def compare_program(o, exp_events, exp_fin="done"):
+def compare_program(o, exp_events, exp_fin="done", tokf=None):
     """o: lua-run output. exp_fin: 'done' or 'error:<token>'. Returns None or a dict(kind, detail, tag)."""
     if o.get("timeout"):
         return {"kind": "hang", "detail": "did not finish within the watchdog"}
@@ -531,8 +533,10 @@ def compare_program(o, exp_events, exp_fin="done"):
     for j, e in enumerate(exp_events):
         if j >= len(got):
             return {"kind": "events", "detail": "missing event %d: expected %s" % (j, json.dumps(e)), "tag": e[0]}
-        if not ev_match(e, got[j]):
-            return {"kind": "events", "detail": "event %d: expected %s got %s" % (j, json.dumps(e), json.dumps(got[j])), "tag": e[0]}
+        if not ev_match(e, got[j], tokf):
+            gt = got[j][0].get("s", "") if got[j] and isinstance(got[j][0], dict) else ""
+            return {"kind": "events", "detail": "event %d: expected %s got %s" % (j, json.dumps(e), json.dumps(got[j])), "tag": e[0],
+                    "got_tag": gt}
     if len(got) > len(exp_events):
         return {"kind": "events", "detail": "extra event %d: %s" % (len(exp_events), json.dumps(got[len(exp_events)])), "tag": "extra"}
     if exp_fin == "done":
@@ -541,6 +545,6 @@ def compare_program(o, exp_events, exp_fin="done"):
     elif exp_fin.startswith("error:"):
         if o.get("ok"):
             return {"kind": "outcome", "detail": "expected error %s, program ended normally" % exp_fin[6:]}
-        if not val_match(exp_fin[6:], o.get("err")):
+        if not val_match(exp_fin[6:], o.get("err"), tokf):
             return {"kind": "outcome", "detail": "expected error value %s, got %s" % (exp_fin[6:], json.dumps(o.get("err")))}
     return None
